@@ -77,9 +77,11 @@ VSsetfields(int32 vkey, const char *fields)
     uint16          order;
     int32           value;
     DYN_VREADLIST  *rlist;
-    DYN_VWRITELIST *wlist;
+    DYN_VWRITELIST *wlist    = NULL;
     vsinstance_t   *w;
     VDATA          *vs;
+    int             building = FALSE; /* the write list is being filled in */
+    int             named    = FALSE; /* name[n] of the write list has been allocated */
     int             ret_value = FAIL;
 
     /* check if a NULL field list is passed in, then return with
@@ -131,8 +133,10 @@ VSsetfields(int32 vkey, const char *fields)
                 wlist->esize = wlist->order + ac;
                 if ((wlist->name = malloc(sizeof(char *) * (size_t)ac)) == NULL) {
                     free(wlist->bptr);
+                    wlist->bptr = NULL;
                     HGOTO_ERROR(DFE_NOSPACE, FAIL);
                 }
+                building = TRUE;
 
                 for (i = 0; i < ac; i++) {
                     found = FALSE;
@@ -141,11 +145,9 @@ VSsetfields(int32 vkey, const char *fields)
                         if (!strcmp(av[i], vs->usym[j].name)) {
                             found = TRUE;
 
-                            if ((wlist->name[wlist->n] = strdup(vs->usym[j].name)) == NULL) {
-                                free(wlist->name);
-                                free(wlist->bptr);
+                            if ((wlist->name[wlist->n] = strdup(vs->usym[j].name)) == NULL)
                                 HGOTO_ERROR(DFE_NOSPACE, FAIL);
-                            }
+                            named = TRUE;
                             order                  = vs->usym[j].order;
                             wlist->type[wlist->n]  = vs->usym[j].type;
                             wlist->order[wlist->n] = order;
@@ -166,6 +168,7 @@ VSsetfields(int32 vkey, const char *fields)
                             wlist->ivsize = (uint16)value;
 
                             wlist->n++;
+                            named = FALSE;
                             break;
                         }
 
@@ -175,11 +178,9 @@ VSsetfields(int32 vkey, const char *fields)
                             if (!strcmp(av[i], rstab[j].name)) {
                                 found = TRUE;
 
-                                if ((wlist->name[wlist->n] = strdup(rstab[j].name)) == NULL) {
-                                    free(wlist->name);
-                                    free(wlist->bptr);
+                                if ((wlist->name[wlist->n] = strdup(rstab[j].name)) == NULL)
                                     HGOTO_ERROR(DFE_NOSPACE, FAIL);
-                                }
+                                named = TRUE;
                                 order                  = rstab[j].order;
                                 wlist->type[wlist->n]  = rstab[j].type;
                                 wlist->order[wlist->n] = order;
@@ -190,6 +191,7 @@ VSsetfields(int32 vkey, const char *fields)
                                 wlist->isize[wlist->n] = (uint16)(order * rstab[j].isize);
                                 wlist->ivsize += (uint16)(wlist->isize[wlist->n]);
                                 wlist->n++;
+                                named = FALSE;
                                 break;
                             }
                     }
@@ -206,6 +208,7 @@ VSsetfields(int32 vkey, const char *fields)
 
                 vs->marked   = TRUE; /* mark vdata as being modified */
                 vs->new_h_sz = TRUE; /* mark vdata header size being changed */
+                building     = FALSE;
 
                 HGOTO_DONE(SUCCEED); /* OK */
             }                        /* if wlist->n == 0 */
@@ -242,6 +245,22 @@ VSsetfields(int32 vkey, const char *fields)
     } /* setting read list */
 
 done:
+    if (ret_value == FAIL && building) {
+        /* do not leave a half-built write list behind: the vdata has no fields set */
+        for (i = 0; i < wlist->n + (named ? 1 : 0); i++)
+            free(wlist->name[i]);
+        free(wlist->name);
+        free(wlist->bptr);
+        wlist->name   = NULL;
+        wlist->bptr   = NULL;
+        wlist->type   = NULL;
+        wlist->off    = NULL;
+        wlist->isize  = NULL;
+        wlist->order  = NULL;
+        wlist->esize  = NULL;
+        wlist->n      = 0;
+        wlist->ivsize = 0;
+    }
     return ret_value;
 } /* VSsetfields */
 
